@@ -332,7 +332,7 @@ theorem ncok_workerCancelled (p : Pool) (t : Nat) (tk : PTask) (h : NcOK p) : Nc
   unfold workerCancelled
   nc2 [ncok_taskCancellation, ncok_afterWorker, ncok_suspendTask]
 
-theorem ncok_workerNext (p : Pool) (t : Nat) (h : NcOK p) : NcOK (p.workerNext t) := by
+theorem ncok_workerNext (p : Pool) (t : Nat) (tk : PTask) (h : NcOK p) : NcOK (p.workerNext t tk) := by
   unfold workerNext
   nc2 [ncok_suspendTask]
 
